@@ -119,8 +119,11 @@ theorem write_shape {m : Mol} {ls : List Line} (h : write m = .ok ls) :
     ∃ rest, ls = prelude m ++ atomsPart m ++ rest ∧ ∀ l ∈ rest, l.isAtom = false := by
   unfold write at h
   by_cases he : m.atoms.isEmpty = true
-  · simp [he] at h; cases h
+  · simp [he] at h
   · simp only [he, Bool.false_eq_true, if_false] at h
+    split at h
+    · cases h
+    unfold writeBody at h
     cases hm : (sortInteractions m).mapM (writeSection m (correspondence m) (widthsOf m).idx) with
     | error e => rw [hm] at h; cases h
     | ok secs =>
